@@ -58,5 +58,5 @@ MANIFEST = {
             "correspondence run. Two places where the code departs from the property are proved as negations and recorded "
             "(F-C17-1 AS0 ROA lists valid announcements as disallowed, F-C17-2 the combined suggestion can remove the only ROAs of a "
             "valid announcement). Announcements with origin AS0 are treated as the code treats them (an AS0 ROA 'validates' them).",
-    "technique": "Lean 4 proof (iff-characterisations, spec equivalence) + correspondence check + brute-force oracle on the implementation's output",
+    "technique": "Lean 4 proof (iff-characterisations, spec equivalence) + correspondence check + brute-force oracle on the implementation's output + source translator (body of ValidatedRouteOrigin::validate as a Lean definition, gen_validate_eq_model)",
 }
